@@ -94,14 +94,21 @@ def sh(cmd, cwd=None, env=None, timeout=None, check=False, stdin=None):
 
 # --------------------------------------------------------------------------- Go driver
 
-def overlay_json(path):
+# add-only overlay shims the driver can do without (degraded): name -> virtual file in /repo
+SHIM_OF = {"omni": "omniwitness/zz_verif_shim.go", "bastion": "internal/feeder/bastion/zz_verif_shim.go", "sumdb": "internal/feeder/sumdb/zz_verif_shim.go"}
+SHIMS_OFF = set()
+
+
+def overlay_json(path, without=()):
     """Overlay that adds the add-only verif shims as virtual files of /repo packages."""
     shims = os.path.join(HARNESS, "shims")
     rep = {}
     mapping = os.path.join(shims, "MAP.json")
+    skip = {SHIM_OF[n] for n in without}
     if os.path.exists(mapping):
         for virt, src in json.load(open(mapping)).items():
-            rep[os.path.join(REPO, virt)] = os.path.join(shims, src)
+            if virt not in skip:
+                rep[os.path.join(REPO, virt)] = os.path.join(shims, src)
     json.dump({"Replace": rep}, open(path, "w"))
     return path
 
@@ -123,12 +130,24 @@ def build_driver(race=False):
         open(gm, "w").write(new)
     os.makedirs(os.path.join(HARNESS, "bin"), exist_ok=True)
     out = os.path.join(HARNESS, "bin", "driver-race" if race else "driver")
-    ov = overlay_json(os.path.join(HARNESS, "bin", "overlay.json"))
-    cmd = ["go", "build", "-tags", "verif", "-overlay", ov, "-o", out]
-    if race:
-        cmd.append("-race")
-    cmd.append("./cmd/driver")
-    rc, o, dt = sh(cmd, cwd=HARNESS, env=GOENV, timeout=1800)
+    def build(without):
+        ov = overlay_json(os.path.join(HARNESS, "bin", "overlay.json"), without)
+        cmd = ["go", "build", "-tags", ",".join(["verif"] + ["noshim_" + n for n in sorted(without)]), "-overlay", ov, "-o", out]
+        if race:
+            cmd.append("-race")
+        cmd.append("./cmd/driver")
+        return sh(cmd, cwd=HARNESS, env=GOENV, timeout=1800)
+    rc, o, dt = build(SHIMS_OFF)
+    if rc != 0 and not SHIMS_OFF:
+        # an add-only shim reaches an unexported identifier whose shape changed in this tree: build without it. Commands that need that shim
+        # end with exit code 3 (inconclusive for the checks that use them); everything else keeps working.
+        broken = {n for n, virt in SHIM_OF.items() if virt in o or os.path.basename(json.load(open(os.path.join(HARNESS, "shims", "MAP.json")))[virt]) in o}
+        if broken:
+            rc2, o2, dt = build(broken)
+            if rc2 == 0:
+                SHIMS_OFF.update(broken)
+                rc, o = rc2, o2
+                sys.stderr.write("note: overlay shim(s) %s do not compile against %s; driver built without them\n" % (sorted(broken), REPO))
     if rc != 0:
         raise Inconclusive("driver does not build against %s:\n%s" % (REPO, o[-6000:]))
     _built[key] = out
@@ -141,6 +160,8 @@ def run_driver(args, timeout=3600, race=False, env=None, cwd=None):
     if env:
         e.update(env)
     rc, o, dt = sh([drv] + args, env=e, timeout=timeout, cwd=cwd)
+    if rc == 3 and "SHIM-UNAVAILABLE" in o:
+        raise Inconclusive("driver command %s needs an overlay shim that does not compile against this tree (%s)" % (args[0], o.strip().splitlines()[-1]))
     if rc != 0:
         raise Inconclusive("driver %s failed (%d):\n%s" % (args[0], rc, o[-4000:]))
     return o, dt
@@ -380,6 +401,10 @@ class Report:
 
     def finish(self):
         self.cov["known_findings_seen"] = self.known
+        if SHIMS_OFF:
+            self.cov["overlay_shims_not_compiling_against_this_tree"] = sorted(SHIMS_OFF)
+            self.notes.append("degraded run: overlay shim(s) %s did not compile; the driver was built without them (omni: a stand-in adapter replaces the unexported witnessAdapter "
+                              "in drivers that only need a feeder.Witness; the real one still runs inside omniwitness.Main and the production binary)" % sorted(SHIMS_OFF))
         ev = {"property_id": self.prop, "tier": self.tier, "seed": self.seed, "level": self.level,
               "coverage": self.cov, "assumptions": self.assumptions, "wall_s": round(time.time() - self.t0, 1),
               "violations": len(self.violations) + getattr(self, "more_violations", 0), "notes": self.notes}
@@ -487,4 +512,20 @@ def build_prod_binary(race=False):
     if rc != 0:
         raise Inconclusive("cmd/omniwitness does not build:\n" + o[-4000:])
     _built[key] = out
+    return out
+
+
+def build_driver_386():
+    """The same driver for a 32-bit platform (GOARCH=386, no cgo: SQLite is not available there, the start-up walk does not need it). The shipped
+    configuration must load wherever the witness is deployed; 32-bit ARM is one of its targets and `int` is 32 bits wide there as on 386."""
+    if "386" in _built:
+        return _built["386"]
+    build_driver()          # go.mod / go.sum / overlay are prepared there
+    out = os.path.join(HARNESS, "bin", "driver-386")
+    ov = os.path.join(HARNESS, "bin", "overlay.json")
+    env = dict(GOENV, GOARCH="386", CGO_ENABLED="0")
+    rc, o, dt = sh(["go", "build", "-tags", "verif", "-overlay", ov, "-o", out, "./cmd/driver"], cwd=HARNESS, env=env, timeout=1800)
+    if rc != 0:
+        raise Inconclusive("driver does not build for GOARCH=386:\n" + o[-4000:])
+    _built["386"] = out
     return out
